@@ -47,7 +47,11 @@ type spec struct {
 	LeanName        string
 	View            map[string]bool // pointer parameters of foreign types: the fields read become value parameters
 	Join            bool            // an `if` whose body only assigns is a conditional re-binding (no duplicated continuation)
+	ByteStr         bool            // Go strings are byte strings (`Bytes`), so that the standard-library string functions have models
 }
+
+// set while a function with spec.ByteStr is translated
+var byteStr bool
 
 // pointer fields that are followed (the pointed-to record becomes a nested structure); every other
 // pointer to a struct is represented by whether it is non-nil
@@ -67,10 +71,14 @@ var specs = []spec{
 	{Pkg: "internal/ratelimiter", Recv: "TokenBucketRateLimiter", Name: "refillTokens"},
 	{Pkg: "internal/ratelimiter", Recv: "TokenBucketRateLimiter", Name: "Allow", Extern: map[string]bool{"getOrCreateBucket": true}},
 	{Pkg: "internal/loadbalancer", Recv: "", Name: "jumpHash", Exact: true},
+	{Pkg: "internal/utils", Recv: "", Name: "GetClientIP", View: map[string]bool{"r": true}, ByteStr: true},
+	{Pkg: "internal/adminapi", Recv: "IPFilter", Name: "IsAllowed", ByteStr: true},
 	{Pkg: "internal/loadbalancer", Recv: "Backend", Name: "eligible"},
 	{Pkg: "internal/loadbalancer", Recv: "Backend", Name: "GetActiveConnections"},
 	{Pkg: "internal/loadbalancer", Recv: "LeastConnectionsStrategy", Name: "NextBackend", LeanName: "lcNextBackend"},
 	{Pkg: "internal/loadbalancer", Recv: "RoundRobinStrategy", Name: "NextBackend", LeanName: "rrNextBackend"},
+	{Pkg: "internal/loadbalancer", Recv: "IPHashStrategy", Name: "NextBackend", LeanName: "ipNextBackend", View: map[string]bool{"r": true}, ByteStr: true, Join: true},
+	{Pkg: "internal/loadbalancer", Recv: "IPHashConsistentStrategy", Name: "NextBackend", LeanName: "ipcNextBackend", View: map[string]bool{"r": true}, ByteStr: true, Join: true},
 	{Pkg: "internal/loadbalancer", Recv: "LoadBalancer", Name: "MarkBackendUnhealthy"},
 	{Pkg: "internal/loadbalancer", Recv: "LoadBalancer", Name: "IsBackendHealthy"},
 	{Pkg: "internal/loadbalancer", Recv: "LoadBalancer", Name: "handleHealthCheckFailure"},
@@ -228,12 +236,21 @@ func leanType(t types.Type, exact bool) (string, bool) {
 	if isPkgType(t, "net", "Conn") {
 		return "Nat", true // the identity of the connection; 0 is nil
 	}
+	if isPkgType(t, "net", "IP") {
+		return "(Option Helios.Admin.IP)", true // a parsed address; nil = none
+	}
+	if p, isPtr := t.(*types.Pointer); isPtr && isPkgType(p.Elem(), "net", "IPNet") {
+		return "Helios.Admin.Net", true // a parsed list entry
+	}
 	switch v := t.(type) {
 	case *types.Basic:
 		switch {
 		case v.Info()&types.IsBoolean != 0:
 			return "Bool", true
 		case v.Info()&types.IsString != 0:
+			if byteStr {
+				return "Bytes", true
+			}
 			return "String", true
 		case v.Info()&types.IsInteger != 0:
 			if exact {
@@ -360,6 +377,7 @@ type fn struct {
 	resultOpt []bool                // results of pointer type (`Option` of the record)
 	hoisted   map[*ast.CallExpr]string // atomic.AddX(&s.f, d) inside an expression: done before it, read as s.f
 	asserted  map[types.Object]stateVar // f in `f, ok := x.ResponseWriter.(http.Flusher)`
+	hashObjs  map[types.Object]bool     // h in `h := fnv.New32a()`: the bytes written to it so far
 	viewPars []param                 // the value parameters those reads became
 }
 
@@ -482,9 +500,70 @@ func constLit(v constant.Value, lean string) string {
 		}
 		return "false"
 	case constant.String:
+		if lean == "Bytes" {
+			return bytesLit(constant.StringVal(v))
+		}
 		return fmt.Sprintf("%q", constant.StringVal(v))
 	}
 	return ""
+}
+
+// a Go string constant as the list of its bytes
+func bytesLit(s string) string {
+	if s == "" {
+		return "([] : Bytes)"
+	}
+	var parts []string
+	for i := 0; i < len(s); i++ {
+		parts = append(parts, fmt.Sprintf("0x%02X", s[i]))
+	}
+	return "([" + strings.Join(parts, ", ") + "] : Bytes)"
+}
+
+// the single byte of a one-byte string constant (separators handed to strings.Index / Contains / Split)
+func (f *fn) oneByte(e ast.Expr) (string, bool) {
+	if tv, ok := f.l.info.Types[e]; ok && tv.Value != nil && tv.Value.Kind() == constant.String {
+		if s := constant.StringVal(tv.Value); len(s) == 1 {
+			return fmt.Sprintf("0x%02X", s[0]), true
+		}
+	}
+	return "", false
+}
+
+// r.Header.Get("Name") on a request handed in by pointer: the value of that header is a parameter
+func (f *fn) headerGet(c *ast.CallExpr) (string, bool) {
+	sel, ok := c.Fun.(*ast.SelectorExpr)
+	if !ok || sel.Sel.Name != "Get" || len(c.Args) != 1 {
+		return "", false
+	}
+	inner, ok := sel.X.(*ast.SelectorExpr)
+	if !ok || inner.Sel.Name != "Header" {
+		return "", false
+	}
+	id, ok := inner.X.(*ast.Ident)
+	if !ok {
+		return "", false
+	}
+	o := f.l.info.Uses[id]
+	if o == nil || f.views[o] == "" {
+		return "", false
+	}
+	tv, ok := f.l.info.Types[c.Args[0]]
+	if !ok || tv.Value == nil || tv.Value.Kind() != constant.String {
+		return "", false
+	}
+	name := id.Name + "_Header_" + strings.NewReplacer("-", "_").Replace(constant.StringVal(tv.Value))
+	found := false
+	for _, p := range f.viewPars {
+		if p.name == name {
+			found = true
+		}
+	}
+	if !found {
+		lt, _ := leanType(types.Typ[types.String], f.spec.Exact)
+		f.viewPars = append(f.viewPars, param{name, nil, lt})
+	}
+	return ident(name), true
 }
 
 func (f *fn) convert(x string, from, to string, n ast.Node) string {
@@ -646,7 +725,7 @@ func (f *fn) expr(e ast.Expr) string {
 				}
 				return "(" + f.expr(v.X) + " == 0)"
 			}
-			if lt, _ := leanType(f.typeOf(v.X), f.spec.Exact); lt == errType {
+			if lt, _ := leanType(f.typeOf(v.X), f.spec.Exact); lt == errType || isPkgType(f.typeOf(v.X), "net", "IP") {
 				if v.Op == token.NEQ {
 					return "(" + f.expr(v.X) + ").isSome"
 				}
@@ -730,6 +809,14 @@ func (f *fn) expr(e ast.Expr) string {
 		if _, isMap := f.typeOf(v.X).Underlying().(*types.Map); isMap {
 			return "(" + f.expr(v.X) + " " + f.expr(v.Index) + ")"
 		}
+		// strings.Split(s, "c")[0]: the text before the first c (the whole of s when there is none)
+		if c, ok := v.X.(*ast.CallExpr); ok && byteStr && exprText(c.Fun) == "strings.Split" && len(c.Args) == 2 {
+			if tv, ok := f.l.info.Types[v.Index]; ok && tv.Value != nil && tv.Value.ExactString() == "0" {
+				if b, ok := f.oneByte(c.Args[1]); ok {
+					return "(strSplitFirst " + f.expr(c.Args[0]) + " " + b + ")"
+				}
+			}
+		}
 		if _, isSlice := f.typeOf(v.X).Underlying().(*types.Slice); isSlice {
 			switch f.lt(v.Index) {
 			case "Nat":
@@ -743,7 +830,11 @@ func (f *fn) expr(e ast.Expr) string {
 		return "true" // a function value: non-nil
 	case *ast.SliceExpr:
 		if v.Low == nil && v.High != nil && v.Max == nil {
-			if _, isSlice := f.typeOf(v.X).Underlying().(*types.Slice); isSlice {
+			_, isSlice := f.typeOf(v.X).Underlying().(*types.Slice)
+			if byteStr && f.lt(v.X) == "Bytes" {
+				isSlice = true // s[:i] on a string: its first i bytes
+			}
+			if isSlice {
 				switch f.lt(v.High) {
 				case "Int":
 					return "(List.take (Int.toNat " + f.expr(v.High) + ") " + f.expr(v.X) + ")"
@@ -887,6 +978,27 @@ func (f *fn) callExpr(c *ast.CallExpr) string {
 		}
 		return "(" + g.leanName + " " + strings.Join(args, " ") + ").2"
 	}
+	if sel, ok := c.Fun.(*ast.SelectorExpr); ok && sel.Sel.Name == "Contains" && len(c.Args) == 1 {
+		if xt := f.typeOf(sel.X); xt != nil {
+			if p, isPtr := xt.(*types.Pointer); isPtr && isPkgType(p.Elem(), "net", "IPNet") {
+				return "(netContains " + f.expr(sel.X) + " " + f.expr(c.Args[0]) + ")"
+			}
+		}
+	}
+	if byteStr {
+		if v, ok := f.headerGet(c); ok {
+			return v
+		}
+		// hash.Sum32() of an fnv.New32a() object: FNV-1a over the bytes written so far
+		if sel, ok := c.Fun.(*ast.SelectorExpr); ok && sel.Sel.Name == "Sum32" && len(c.Args) == 0 {
+			if id, ok := sel.X.(*ast.Ident); ok && f.hashObjs[f.l.info.Uses[id]] {
+				if f.spec.Exact {
+					return "(Helios.Hash.fnv1a " + ident(id.Name) + ")"
+				}
+				return "(Helios.Hash.fnv1a " + ident(id.Name) + ").toNat"
+			}
+		}
+	}
 	if sel, ok := c.Fun.(*ast.SelectorExpr); ok && len(c.Args) == 1 {
 		if p, ok := sel.X.(*ast.Ident); ok {
 			if pn, ok := f.l.info.Uses[p].(*types.PkgName); ok && pn.Imported().Path() == "sync/atomic" && strings.HasPrefix(sel.Sel.Name, "Load") {
@@ -915,6 +1027,18 @@ func (f *fn) callExpr(c *ast.CallExpr) string {
 					return "(some (" + lit.Value + ", [" + strings.Join(sargs, ", ") + "]))"
 				case "strings.HasPrefix":
 					return "(strHasPrefix " + f.expr(c.Args[0]) + " " + f.expr(c.Args[1]) + ")"
+				case "strings.TrimSpace":
+					if byteStr {
+						return "(Helios.Addr.trimSpace " + f.expr(c.Args[0]) + ")"
+					}
+				case "strings.Index":
+					if b, ok := f.oneByte(c.Args[1]); ok && byteStr {
+						return "(strIndexByte " + f.expr(c.Args[0]) + " " + b + ")"
+					}
+				case "strings.Contains":
+					if b, ok := f.oneByte(c.Args[1]); ok && byteStr {
+						return "(Helios.Bytes.contains " + b + " " + f.expr(c.Args[0]) + ")"
+					}
 				}
 			}
 		}
@@ -1428,6 +1552,60 @@ func (f *fn) block(list []ast.Stmt, ind string, k cont) string {
 		}
 		return out + rest(ind)
 	case *ast.AssignStmt:
+		if byteStr && len(s.Rhs) == 1 {
+			if c, ok := s.Rhs[0].(*ast.CallExpr); ok {
+				switch exprText(c.Fun) {
+				case "net.SplitHostPort":
+					// host, port, err := net.SplitHostPort(x): the model of the library function gives the host or fails
+					if len(s.Lhs) == 3 && len(c.Args) == 1 {
+						if p, ok := s.Lhs[1].(*ast.Ident); ok && p.Name == "_" {
+							out := ind + "let shp_ := Helios.Addr.splitHost " + f.expr(c.Args[0]) + "\n"
+							out += f.assign(s.Lhs[0], "(shp_.getD [])", ind)
+							out += f.assign(s.Lhs[2], "(if shp_.isSome then (none : "+errType+") else some (\"net.SplitHostPort\", []))", ind)
+							return out + rest(ind)
+						}
+						return ind + f.fail(s, "the port of net.SplitHostPort is used")
+					}
+				case "net.ParseIP":
+					// ip := net.ParseIP(text): what the library makes of the text is handed in by the caller
+					if id, ok := s.Lhs[0].(*ast.Ident); ok && len(s.Lhs) == 1 && len(c.Args) == 1 {
+						name := "parsed_" + exprText(c.Args[0])
+						found := false
+						for _, p := range f.viewPars {
+							if p.name == name {
+								found = true
+							}
+						}
+						if !found {
+							f.viewPars = append(f.viewPars, param{name, nil, "(Option Helios.Admin.IP)"})
+						}
+						return ind + "let " + ident(id.Name) + " := " + ident(name) + "\n" + rest(ind)
+					}
+				case "fnv.New32a":
+					if id, ok := s.Lhs[0].(*ast.Ident); ok && len(s.Lhs) == 1 && s.Tok == token.DEFINE {
+						if f.hashObjs == nil {
+							f.hashObjs = map[types.Object]bool{}
+						}
+						f.hashObjs[f.l.info.Defs[id]] = true
+						return ind + "let " + ident(id.Name) + " : Bytes := []\n" + rest(ind)
+					}
+				}
+				// _, _ = h.Write([]byte(x))
+				if sel, ok := c.Fun.(*ast.SelectorExpr); ok && sel.Sel.Name == "Write" && len(c.Args) == 1 {
+					if id, ok := sel.X.(*ast.Ident); ok && f.hashObjs[f.l.info.Uses[id]] {
+						if conv, ok := c.Args[0].(*ast.CallExpr); ok && len(conv.Args) == 1 && f.lt(conv.Args[0]) == "Bytes" {
+							for _, l := range s.Lhs {
+								if b, ok := l.(*ast.Ident); !ok || b.Name != "_" {
+									return ind + f.fail(s, "result of hash.Write is used")
+								}
+							}
+							n := ident(id.Name)
+							return ind + "let " + n + " := " + n + " ++ " + f.expr(conv.Args[0]) + "\n" + rest(ind)
+						}
+					}
+				}
+			}
+		}
 		if len(s.Lhs) == 2 && len(s.Rhs) == 1 {
 			if ix, ok := s.Rhs[0].(*ast.IndexExpr); ok {
 				if _, ok := f.isState(s.Lhs[0]); ok {
@@ -1463,6 +1641,32 @@ func (f *fn) block(list []ast.Stmt, ind string, k cont) string {
 			}
 		}
 		if len(s.Lhs) == 1 && len(s.Rhs) == 1 {
+			// x := g(args) of a translated function with a loop: it is given the caller's fuel; out of fuel there is out of fuel here
+			if c, ok := s.Rhs[0].(*ast.CallExpr); ok {
+				if g := f.fuelledCallee(c); g != nil {
+					id, isId := s.Lhs[0].(*ast.Ident)
+					if !isId || len(c.Args) != len(g.params) {
+						return ind + f.fail(s, "call of %s", g.leanName)
+					}
+					args := []string{}
+					for i, a := range c.Args {
+						x, ok := crossConvert(f.expr(a), f.lt(a), g.params[i].lean)
+						if !ok {
+							return ind + f.fail(s, "argument %d of %s: %s -> %s", i, g.leanName, f.lt(a), g.params[i].lean)
+						}
+						args = append(args, x)
+					}
+					back, ok := crossConvert(ident(id.Name)+"_", g.results[0], f.lt(s.Lhs[0]))
+					if !ok {
+						return ind + f.fail(s, "result of %s: %s -> %s", g.leanName, g.results[0], f.lt(s.Lhs[0]))
+					}
+					out := ind + "match " + g.leanName + " fuel " + strings.Join(args, " ") + " with\n"
+					out += ind + "| none => none\n"
+					out += ind + "| some " + ident(id.Name) + "_ =>\n"
+					out += ind + "  let " + ident(id.Name) + " := " + back + "\n"
+					return out + rest(ind+"  ")
+				}
+			}
 			if c, ok := s.Rhs[0].(*ast.CallExpr); ok {
 				if id, ok := s.Lhs[0].(*ast.Ident); ok && id.Name == "_" {
 					if st, ok := f.connClose(c); ok {
@@ -2350,10 +2554,88 @@ func hasFor(b *ast.BlockStmt) bool {
 	return found
 }
 
+// fuelledCallee: a call of a translated package-level function that contains a `for` loop (its Lean form takes fuel and
+// may answer `none`)
+func (f *fn) fuelledCallee(c *ast.CallExpr) *fn {
+	id, ok := c.Fun.(*ast.Ident)
+	if !ok {
+		return nil
+	}
+	if o, ok := f.l.info.Uses[id].(*types.Func); ok {
+		if g := translated[o]; g != nil && g.hasLoop && len(g.stateVar) == 0 && len(g.results) == 1 {
+			return g
+		}
+	}
+	return nil
+}
+
+func (f *fn) callsFuelled(b *ast.BlockStmt) bool {
+	found := false
+	ast.Inspect(b, func(n ast.Node) bool {
+		if c, ok := n.(*ast.CallExpr); ok && f.fuelledCallee(c) != nil {
+			found = true
+		}
+		return true
+	})
+	return found
+}
+
+// between the exact machine integers of one function and the unbounded ones of another
+func crossConvert(x, from, to string) (string, bool) {
+	if from == to {
+		return x, true
+	}
+	switch from + ">" + to {
+	case "Nat>UInt64":
+		return "(UInt64.ofNat " + x + ")", true
+	case "Nat>UInt32":
+		return "(UInt32.ofNat " + x + ")", true
+	case "Int>Int32":
+		return "(Int32.ofInt " + x + ")", true
+	case "Int>Int64":
+		return "(Int64.ofInt " + x + ")", true
+	case "Int32>Int":
+		return "(Int32.toInt " + x + ")", true
+	case "Int64>Int":
+		return "(Int64.toInt " + x + ")", true
+	case "UInt64>Nat":
+		return "(UInt64.toNat " + x + ")", true
+	case "UInt32>Nat":
+		return "(UInt32.toNat " + x + ")", true
+	}
+	return "", false
+}
+
 func (f *fn) translate() string {
 	info := f.l.info
 	d := f.decl
-	f.hasLoop = hasFor(d.Body)
+	f.hasLoop = hasFor(d.Body) || f.callsFuelled(d.Body)
+	// slices are translated as values. That is only right while no two slices that share an array are both
+	// written: `x := obj.f[:k]` followed by `append(x, ..)` writes into obj.f's array behind its back.
+	shares := map[types.Object]bool{}
+	ast.Inspect(d.Body, func(n ast.Node) bool {
+		switch v := n.(type) {
+		case *ast.AssignStmt:
+			for i, r := range v.Rhs {
+				if se, ok := r.(*ast.SliceExpr); ok && i < len(v.Lhs) {
+					if _, isSel := se.X.(*ast.SelectorExpr); isSel {
+						if id, isId := v.Lhs[i].(*ast.Ident); isId {
+							if o := info.ObjectOf(id); o != nil {
+								shares[o] = true
+							}
+						}
+					}
+				}
+			}
+		case *ast.CallExpr:
+			if id, ok := v.Fun.(*ast.Ident); ok && id.Name == "append" && len(v.Args) > 0 {
+				if a, isId := v.Args[0].(*ast.Ident); isId && shares[info.ObjectOf(a)] {
+					f.fail(v, "append to %s, which shares its array with a field (slices are translated as values)", a.Name)
+				}
+			}
+		}
+		return true
+	})
 	// receiver and parameters
 	addObj := func(id *ast.Ident) {
 		o := info.Defs[id]
@@ -2578,7 +2860,9 @@ func main() {
 		if sp.LeanName != "" {
 			f.leanName = sp.LeanName
 		}
+		byteStr = sp.ByteStr
 		text := f.translate()
+		byteStr = false
 		if f.failed {
 			continue
 		}
@@ -2588,7 +2872,12 @@ func main() {
 	}
 	var b strings.Builder
 	b.WriteString("-- GENERATED by /verif/go/trans from the current /repo source. Do not edit.\n")
-	b.WriteString("namespace Helios.Generated.Code\n\n")
+	b.WriteString("import Helios.Model.Addr\nimport Helios.Model.Hash\nimport Helios.Model.Admin\n")
+	b.WriteString("-- (the imports are the models of the standard-library functions and types the translated code uses: net.SplitHostPort,\n-- strings.TrimSpace, hash/fnv's New32a, net.IP / net.IPNet with Contains; nothing else of the hand-written model is used here)\n")
+	b.WriteString("namespace Helios.Generated.Code\nopen Helios (Bytes)\n\n")
+	b.WriteString("/-- `strings.Index(s, c)` for a one-byte `c`: the position of the first `c`, -1 when there is none -/\ndef strIndexByte (s : Bytes) (c : UInt8) : Int :=\n  match Helios.Bytes.indexOf c s with\n  | some i => Int.ofNat i\n  | none => -1\n\n")
+	b.WriteString("/-- `(*net.IPNet).Contains(ip)`; a nil address is in no network -/\ndef netContains (n : Helios.Admin.Net) (ip : Option Helios.Admin.IP) : Bool :=\n  match ip with\n  | some a => n.contains a\n  | none => false\n\n")
+	b.WriteString("/-- `strings.Split(s, c)[0]` for a one-byte `c` -/\ndef strSplitFirst (s : Bytes) (c : UInt8) : Bytes :=\n  match Helios.Bytes.indexOf c s with\n  | some i => s.take i\n  | none => s\n\n")
 	b.WriteString("/-- `strings.HasPrefix` -/\ndef strHasPrefix (s p : String) : Bool := p.toList.isPrefixOf s.toList\n\n")
 	b.WriteString("/-- `xs[i]` on a slice read as a list (Go panics when `i` is out of range: the theorems establish `i < xs.length` where it matters) -/\ndef listGet {α : Type} [Inhabited α] (xs : List α) (i : Nat) : α := (xs[i]?).getD default\n\n")
 	b.WriteString("/-- `m[k] = v` on a Go map read as a total function -/\ndef mapSet {α : Type} (m : String → α) (k : String) (v : α) : String → α :=\n  fun k' => if k' = k then v else m k'\n\n")
